@@ -2,6 +2,7 @@ package main
 
 import (
 	"fmt"
+	"math"
 
 	"github.com/bradenaw/juniper/container/xheap"
 
@@ -22,7 +23,7 @@ type heapCfg[T any] struct {
 	un   func(x T) el
 }
 
-var notAnElement = el{-1 << 40, -1}
+var notAnElement = el{math.MinInt / 2, -1}
 
 // []int ordered by its sum: {id, pri-id}
 func sliceOf(e el) []int { return []int{e.ID, e.Pri - e.ID} }
